@@ -31,6 +31,9 @@ CHECKS = {
  'C20': dict(technique='TLC model checking of the hash input stream (MC_WriterData!HashIsSource) + replay against hashlib on real conversions',
              text='TLC proves for all small 3-D/2-D shapes and blockshapes that the sequence of planes/traces fed to the hash is exactly the real source in trace order; real conversions by every route and setting are compared with hashlib.sha1 of the source samples, every single-sample perturbation of a small cube/section must change the hash, re-blocking must carry it.',
              note='SHA-1 trusted; irregular surveys are outside the property', ref='7/C20'),
+ 'C03': dict(technique='TLC evaluation of format conformance (SgzFormat!Conformant conjuncts, SgzVersion gates) on every writer output and writer chain + TLC/Apalache model checking of the version encoding',
+             text='Every output of every writer (NumPy, SEG-Y in 4 detection modes, 2-D, irregular, ZGY/VDS fixtures, cropper, re-blocker) and of chains up to length 3 is parsed at the byte positions the specification gives and each conformance conjunct (dimensions, axes, rate, blockshape, block count, entry bytes, stride and offsets under the RECORDED version, trace count, table vs stored arrays, file length) is decided by TLC against the truth taken from the source and settings; the file is then decoded unit by unit and array by array from TLC offsets. The version encoding is model checked exhaustively at reduced radices (TLC), proved at the real radices for all pairs (Apalache, thorough) and enumerated on the real class (boundary set quick, all 8.4 million thorough) together with the setuptools_scm string grammar.',
+             note='unused header regions are not inspected; cropper/re-blocker keep the source version and are judged under its conventions', ref='7/C03'),
 }
 checks = []
 for pid, c in CHECKS.items():
